@@ -895,7 +895,20 @@ func (fx *fnExec) mapKeyTerm(k Val) *Term {
 // semantic equality implies id equality via an axiom instance per pair seen).
 func (ex *Exec) strID(s Val) *Term {
 	u := DeclUF("$strid", IntSort, StrArr, BV64, BV64)
-	return App(u, s.C[0], s.C[1], s.C[2])
+	id := App(u, s.C[0], s.C[1], s.C[2])
+	// the identity of a string used as a map key is its content: for every pair of key strings met
+	// in the unit, equal identities <==> equal contents (pairwise, capped to keep queries small)
+	if !ex.embSeen[id] {
+		ex.embSeen[id] = true
+		if len(ex.strKeys) < 16 {
+			for _, t := range ex.strKeys {
+				tid := App(u, t.C[0], t.C[1], t.C[2])
+				ex.Assume = append(ex.Assume, closeOverSpecBound(And(Implies(Eq(id, tid), strEq(s, t)), Implies(strEq(s, t), Eq(id, tid)))))
+			}
+			ex.strKeys = append(ex.strKeys, s)
+		}
+	}
+	return id
 }
 
 func mapSorts(mt *types.Map) (ks *Sort, vs []*Sort) {
